@@ -15,6 +15,7 @@ import math
 import mpmath
 from mpmath import mpf
 
+from .. import alphabet as A
 from .. import lattice as L
 from .. import model as G
 from .. import sweep as S
@@ -258,6 +259,138 @@ def check_case(res: Result, op, a, b, s, sa, sb, flavor, layers=("L1", "L2")):
         res.violation(f"{cls_base}|L2", msg + " [float64]", dict(case, layer="L2"))
 
 
+# ------------------------------------------------------------------ float64 accuracy on operands of wide dynamic range
+def _t_for(x, y, z, m):
+    return math.sqrt(x * x + y * y + z * z + m * m)
+
+
+WIDE4 = [
+    Vec("fwd", (3.0, 4.0, 5.0 * 2**20, _t_for(3.0, 4.0, 5.0 * 2**20, 1.0)), {"wide"}),  # |z| / rho ~ 1e6, gamma ~ 5e6, mass 1
+    Vec("bwd", (-3.0, 0.5, -7.0 * 2**18, _t_for(-3.0, 0.5, -7.0 * 2**18, 2.5)), {"wide"}),
+    Vec("softrho", (3.0 * 2**-20, -4.0 * 2**-20, 1.5, 2.5), {"wide"}),  # rho / |z| ~ 3e-6, time-like
+    Vec("bigrho", (3.0 * 2**20, -4.0 * 2**20, 2.0**-10, _t_for(3.0 * 2**20, -4.0 * 2**20, 2.0**-10, 3.0)), {"wide"}),  # eta ~ 2e-10
+    Vec("smallphi", (2.0**20, 2.0**-5, -1.5, _t_for(2.0**20, 2.0**-5, -1.5, 0.75)), {"wide"}),  # phi ~ 3e-8
+    Vec("rest", (3 * 2.0**-12, 4 * 2.0**-12, -5 * 2.0**-12, 8.0), {"wide"}),  # beta ~ 2e-4
+]
+EPS64 = mpf(2) ** -52
+WIDE_K = 64
+
+
+def wide_vectors(dim):
+    return [Vec(w.name, w.comps[:dim], w.tags) for w in WIDE4]
+
+
+def _ulp_spread_of_result(rsys, rst, rcart):
+    """how far the Cartesian reading of a stored float64 result moves when one stored coordinate moves by one ulp: the
+    rounding the result's own representation forces on it"""
+    spread = mpf(0)
+    for i in range(len(rst)):
+        for sgn in (1, -1):
+            st2 = list(rst)
+            st2[i] = mpf(math.nextafter(float(rst[i]), math.inf * sgn))
+            c = G.from_stored(rsys, tuple(st2))
+            if c is None:
+                return None
+            spread = max(spread, max(abs(p - q) for p, q in zip(c, rcart)))
+    return spread
+
+
+def check_wide(res: Result, op, a, b, s, sa, sb, flavor):
+    """The float64 clause of the statement on operands of wide dynamic range: the result must be within WIDE_K eps of the
+    exact value of the stored operands, relative to the size of the result, unless +-1 ulp perturbations of the stored
+    inputs (conditioning) or of the stored result coordinates (representation) account for the deviation."""
+    if op.ret == "bool" or op.partial:
+        return
+    fs = S.float_scalars(s)
+    fc = _float_call(op, a, sa, b, sb, flavor, fs)
+    if fc is None:
+        res.count("operand_not_representable")
+        return
+    out, ga, gb, va, stored_pair = fc
+    ms2 = S.mp_scalars(s)
+    if "quat_spec" in s:
+        ms2 = {k: mpf(v) for k, v in fs.items()}
+    exp = expected(op, ga, gb, ms2)
+    res.states += 1
+    if exp is None:
+        res.count("definition_not_finite")
+        return
+    res.transitions += 1
+    res.evaluations += 1
+    case = {"op": op.key, "flavor": flavor, "a": list(a.comps), "b": list(b.comps) if b is not None else None, "scalars": s, "sysA": list(sa),
+            "sysB": list(sb) if sb is not None else None, "layer": "L2w", "wide": a.name}
+    cls = f"{op.key}|{L.sysname(sa)}" + (f"|{L.sysname(sb)}" if sb is not None else "") + f"|wide:{a.name}|L2w"
+    if out[0] == "raise":
+        res.traces += 1
+        res.violation(cls, f"{op.key} raised {out[1]} where the documented definition is finite [float64, wide dynamic range]", case)
+        return
+    allowed_out = mpf(0)
+    if out[0] == "scalar":
+        dev, ref = abs(out[1] - exp), abs(exp)
+        if op.name in ("phi", "deltaphi"):
+            dev = min(dev, abs(abs(out[1] - exp) - 2 * G.PI))
+    else:
+        _, rsys, rst, rcart = out
+        scale = S.case_scale(op, a, b, s)
+        if not isinstance(exp, tuple) or rcart is None or len(rcart) != len(exp) or not result_representable(exp, rsys, scale, MARGIN_L2):
+            res.count("result_not_representable")
+            return
+        dev, ref = max(abs(p - q) for p, q in zip(rcart, exp)), max(abs(q) for q in exp)
+        allowed_out = _ulp_spread_of_result(rsys, rst, rcart)
+        if allowed_out is None:
+            res.count("result_not_representable")
+            return
+    res.traces += 1
+    if dev <= WIDE_K * EPS64 * ref + 4 * allowed_out:
+        res.nontrivial += 1
+        return
+    if _conditioning_explains_dev(op, sa, sb, stored_pair, ms2, exp, dev - 4 * allowed_out):
+        res.count("dropped_ill_conditioned")
+        return
+    res.violation(cls, f"{op.key}: float64 result deviates from the exact value of the stored operands by {mpmath.nstr(dev / ref if ref else dev, 3)} (relative), "
+                       f"more than {WIDE_K} eps and more than +-1 ulp of any stored input or result coordinate explains; exact {mpmath.nstr(exp if not isinstance(exp, tuple) else list(exp), 17)}, "
+                       f"got {mpmath.nstr(out[1], 17) if out[0] == 'scalar' else [mpmath.nstr(c, 17) for c in out[3]]}", case)
+
+
+def _conditioning_explains_dev(op, sa, sb, stored_pair, ms, exp, dev):
+    """dev <= 256 x the spread of the exact definition over +-1 ulp perturbations of each stored input"""
+    sta, stb = stored_pair
+    base = [(sysx, list(st)) for sysx, st in ((sa, sta), (sb, stb)) if st is not None]
+    spread = mpf(0)
+    for which, (sysx, st) in enumerate(base):
+        for i in range(len(st)):
+            for sgn in (1, -1):
+                st2 = list(st)
+                st2[i] = math.nextafter(st[i], math.inf * sgn)
+                gs = [G.from_stored(sy, st2 if w2 == which else s0) for w2, (sy, s0) in enumerate(base)]
+                if any(g is None for g in gs):
+                    return True
+                e2 = expected(op, gs[0], gs[1] if len(gs) > 1 else None, ms)
+                if e2 is None:
+                    return True
+                d = max(abs(p - q) for p, q in zip(e2, exp)) if isinstance(exp, tuple) else abs(e2 - exp)
+                spread = max(spread, d)
+    return dev <= 256 * spread
+
+
+def run_wide(res: Result, op, dimA, dimB, sigs, tier):
+    flavor = "momentum" if op.momentum_only else "generic"
+    scal = S.scalar_sets(op, tier)[:1] if tier != "thorough" else S.scalar_sets(op, tier)[:2]
+    for a in wide_vectors(dimA):
+        bs = [None]
+        if dimB is not None:
+            if op.name in ("boost_beta3", "boostCM_of_beta3") or (op.name in ("boost", "boostCM_of") and dimB == 3):
+                bs = S._beta3_partners(tier)[:1]
+            elif "boost" in op.name:
+                bs = S._booster_p4(tier)[:1]
+            else:
+                bs = A.partners(dimB, tier)[:1]
+        for b in bs:
+            for s in scal:
+                for sa, sb in sigs:
+                    check_wide(res, op, a, b, s, sa, sb, flavor)
+
+
 def run_shard(shard, tier):
     res = Result()
     op = BY_KEY[shard["op"]]
@@ -278,6 +411,8 @@ def run_shard(shard, tier):
                 if first:
                     first = False
                     res.sample({"op": op.key, "flavor": flavor, "a": list(a.comps), "b": list(b.comps) if b else None, "scalars": {k: v for k, v in s.items() if k != "matrix"}, "signatures_checked": len(sigs), "reference": "M_geo"})
+    wsigs = sigs if (dimB is None or tier == "thorough") else [sg for sg in S.signatures(op, dimA, dimB, "diag") if only_sa is None or sg[0] == only_sa]
+    run_wide(res, op, dimA, dimB, wsigs, tier)
     return res
 
 
@@ -288,6 +423,10 @@ def replay(case):
     b = Vec("b", case["b"], set()) if case.get("b") is not None else None
     sa = tuple(case["sysA"])
     sb = tuple(case["sysB"]) if case.get("sysB") is not None else None
+    if case.get("layer") == "L2w":
+        a = Vec(case.get("wide", "a"), case["a"], {"wide"})
+        check_wide(res, op, a, b, case["scalars"], sa, sb, case["flavor"])
+        return res
     layers = (case["layer"],) if "layer" in case else ("L1", "L2")
     check_case(res, op, a, b, case["scalars"], sa, sb, case["flavor"], layers)
     return res
